@@ -110,3 +110,92 @@ def flat_toks(c, rng):
             return ts
         return side(n['l'], 'l') + [T(n['s'])] + side(n['r'], 'r')
     return emit(c, '')
+
+
+# ------------------------------------------------------------------ rule-shaped pairs with a deep shared part
+_EN_CONC = ['dcl', 'b', 'ng', 'thr', 'expl', 'em', 'pss']
+_JA_CONC_S = [('mod', ['nm', 'adn', 'adv']), ('form', ['base', 'cont', 'stem']), ('fin', ['f', 't'])]
+_JA_CONC_NP = [('case', ['ga', 'o', 'ni', 'to']), ('mod', ['nm', 'adn']), ('fin', ['f', 't'])]
+
+
+def _conc_atom(rng, lang):
+    if lang == 'en':
+        return atom(rng.choice(['S', 'NP', 'PP', 'N']), uf(rng.choice(_EN_CONC)))
+    if rng.random() < 0.5:
+        return atom('S', tf(_JA_CONC_S, rng))
+    return atom('NP', tf(_JA_CONC_NP, rng))
+
+
+def _tree_of(atoms, rng, slashes):
+    """a random binary bracketing of the atom list"""
+    if len(atoms) == 1:
+        return atoms[0]
+    k = rng.randrange(1, len(atoms))
+    return fun(_tree_of(atoms[:k], rng, slashes), rng.choice(slashes), _tree_of(atoms[k:], rng, slashes))
+
+
+def _atoms_of(c, out):
+    if c['k'] == 'F':
+        _atoms_of(c['l'], out)
+        _atoms_of(c['r'], out)
+    else:
+        out.append(c)
+    return out
+
+
+def _replace_atom(c, idx, new, counter):
+    if c['k'] == 'F':
+        l = _replace_atom(c['l'], idx, new, counter)
+        r = _replace_atom(c['r'], idx, new, counter)
+        return fun(l, c['s'], r)
+    counter[0] += 1
+    return new if counter[0] - 1 == idx else c
+
+
+def _other_feature(a, rng, lang):
+    """the same atom with a different concrete feature value (one value changed for three-part features)"""
+    if lang == 'en':
+        return atom(a['b'], uf(rng.choice([f for f in _EN_CONC if uf(f) != a['f']])))
+    kv = [dict(p) for p in a['f']['kv']]
+    i = rng.randrange(len(kv))
+    spec = dict(_JA_CONC_S if a['b'] == 'S' else _JA_CONC_NP)
+    kv[i]['v'] = rng.choice([v for v in spec[kv[i]['k']] if v != kv[i]['v']])
+    return atom(a['b'], {'t': 'T', 'kv': kv})
+
+
+def deep_pairs(rng, lang, n):
+    """n pairs (x, y, note) shaped like the premises of the application / composition rules whose shared part b is a functor of 3-5
+    atoms in a random bracketing; the occurrence of b in y differs from the one in x in the feature of exactly one atom
+    (any position: head, middle, last), or in nothing (control)"""
+    out = []
+    sl = '/\\'
+    for _ in range(n):
+        k = rng.choice([3, 3, 4, 4, 5])
+        b = _tree_of([_conc_atom(rng, lang) for _ in range(k)], rng, sl)
+        atoms = _atoms_of(b, [])
+        mode = rng.random()
+        if mode < 0.75:
+            i = rng.randrange(len(atoms))
+            b2 = _replace_atom(b, i, _other_feature(atoms[i], rng, lang), [0])
+            note = 'atom %d of %d of the shared part differs' % (i, len(atoms))
+        else:
+            b2, note = b, 'identical shared part'
+        a = _conc_atom(rng, lang)
+        if rng.random() < 0.3:
+            a = fun(a, rng.choice(sl), _conc_atom(rng, lang))
+        c, d = _conc_atom(rng, lang), _conc_atom(rng, lang)
+        shape = rng.randrange(6)
+        if shape == 0:
+            x, y = fun(a, '/', b), b2
+        elif shape == 1:
+            x, y = b2, fun(a, '\\', b)
+        elif shape == 2:
+            x, y = fun(a, '/', b), fun(b2, rng.choice(sl), c)
+        elif shape == 3:
+            x, y = fun(b2, rng.choice(sl), c), fun(a, '\\', b)
+        elif shape == 4:
+            x, y = fun(a, '/', b), fun(fun(b2, rng.choice(sl), c), rng.choice(sl), d)
+        else:
+            x, y = fun(fun(b2, rng.choice(sl), c), rng.choice(sl), d), fun(a, '\\', b)
+        out.append((x, y, note))
+    return out
